@@ -20,7 +20,12 @@ fn main() {
             Err(_) => { rep.tally("constructor_panicked"); continue; } // a panic is an allowed outcome
         };
         rep.tally("constructor_accepted");
-        let end_cmd = Command::from(c.end);
+        // the end command from the statement ("the end state's lowest non-zero derivative"), not from the crate's
+        // own conversion: non-zero includes subnormal
+        let end_cmd = if c.end.acceleration != 0.0 { Command::new(PositionDerivative::Acceleration, c.end.acceleration) }
+            else if c.end.velocity != 0.0 { Command::new(PositionDerivative::Velocity, c.end.velocity) }
+            else { Command::new(PositionDerivative::Position, c.end.position) };
+        if (c.end.acceleration != 0.0 && c.end.acceleration.abs() < f32::MIN_POSITIVE) || (c.end.acceleration == 0.0 && c.end.velocity != 0.0 && c.end.velocity.abs() < f32::MIN_POSITIVE) { rep.tally("end_kind_decided_by_subnormal"); }
         let end_kind = PositionDerivative::from(end_cmd);
         rep.tally(&format!("end_kind/{:?}", end_kind));
         rep.tally(if c.end.position < c.start.position { "direction/reversed" } else { "direction/forward" });
@@ -90,6 +95,31 @@ fn main() {
             }
         }
         if bad { continue; }
+        // the accessors are functions of t alone: the FIRST call ever made on a newly built profile answers like the
+        // long-lived object that has already served the whole sweep (t = 0 and the phase boundaries included)
+        let mut cand = vec![0i64, 1, -1, b[0], b[1], b[2], b[2].saturating_sub(1)];
+        for _ in 0..3 { cand.push(*rng.pick(&ts)); }
+        for &t in &cand {
+            let which = rng.below(6);
+            let show = |mp: &MotionProfile| -> String {
+                match which {
+                    0 => format!("{:?}", mp.get_piece(Time(t))),
+                    1 => format!("{:?}", mp.get_mode(Time(t))),
+                    2 => format!("{:?}", mp.get_acceleration(Time(t)).map(|q| (q.value.to_bits(), q.unit))),
+                    3 => format!("{:?}", mp.get_velocity(Time(t)).map(|q| (q.value.to_bits(), q.unit))),
+                    4 => format!("{:?}", mp.get_position(Time(t)).map(|q| (q.value.to_bits(), q.unit))),
+                    _ => format!("{:?}", hist(mp, t).map(|d| (d.time, PositionDerivative::from(d.value), f32::from(d.value).to_bits()))),
+                }
+            };
+            let fresh = match build(&c) { Ok(m) => m, Err(_) => { rep.violation("C06/constructor-not-deterministic", "profiles", case, format!("second construction panicked; case={:?}", c)); break; } };
+            let (first, old) = (show(&fresh), show(&mp));
+            rep.eval();
+            rep.tally("fresh_first_query_comparisons");
+            if first != old {
+                rep.violation("C06/first-query-differs", "profiles", case, format!("accessor #{} at t={}: first call on a new profile gives {} but the long-lived one {}; t1..t3={:?} case={:?}", which, t, first, old, b, c));
+                break;
+            }
+        }
     }
     rep.floor("constructor_accepted", 1000);
     rep.floor("end_kind/Position", 100);
@@ -97,6 +127,8 @@ fn main() {
     rep.floor("end_kind/Acceleration", 100);
     rep.floor("direction/reversed", 100);
     rep.floor("after_completion_reads", 1000);
+    rep.floor("fresh_first_query_comparisons", 5000);
+    rep.floor("end_kind_decided_by_subnormal", 20);
     rep.finish(&args);
 }
 fn pd_i(p: PositionDerivative) -> u8 {
